@@ -399,7 +399,7 @@ def real_files(tier, seed):
 def gen_case(seed, i, mode):
     r = prng.rng('c04', seed, mode, i)
     if mode == 'flow':
-        prof = r.choice(('loops', 'loops', 'loops', 'mixed', 'multi'))
+        prof = r.choice(('loops', 'loops', 'loops', 'mixed', 'multi', 'flat'))
         return {'kind': 'flow', 'prog': F.gen_program(r, prof, size=r.choice((5, 8, 12, 20, 30, 45))), 'rng': r.getrandbits(32)}
     if mode == 'small':
         # small loop bodies: every permutation of their reads
